@@ -63,8 +63,8 @@ def run(ctx):
                'theta*dmin is kept >= 1e-6 relative away from the smallest tabulated aperture (unit round trips may land 1 ulp either side)',
                'float32 memmap compared with a bound of 3e-7*(1+max|log10 F|) dex; float32 (1E) tables with 1e-7 dex (scipy interpolates them in float32)',
                'chi^2 ties between distances: any minimiser accepted')
-    ctx.require_events('Fitter.__init__:post', 'Fitter.fit:post', 'grid_checked', 'fluxes_checked')
-    ctx.require_regimes('n=1', 'n=2', 'n>2', 'beyond_table', 'av_clipped', 'av_interior', 'best_first', 'best_mid',
+    ctx.require_events('Fitter.__init__:post', 'Fitter.fit:post', 'grid_checked')
+    ctx.require_regimes('unit:flux-not-mJy', 'apertures:per-band-tables', 'n=1', 'n=2', 'n>2', 'beyond_table', 'av_clipped', 'av_interior', 'best_first', 'best_mid',
                         'best_last', 'style:v1', 'style:v2name', 'style:v2wav', 'memmap_on', 'memmap_off', 'unit:pc', 'unit:cm', 'angle:arcmin', 'angle:deg')
     n_pkg = 14 if ctx.quick else 160
     n_rng = 3
@@ -76,7 +76,7 @@ def run(ctx):
         n_ap = int(rng.integers(2, 9))
         names = gen.model_names(rng, n_models)
         wav = gen.band_wavelengths(rng, n_bands)
-        style = str(rng.choice(['v1', 'v2name', 'v2wav']))
+        style = ['v1', 'v2name', 'v2wav', 'v1'][(ip + ctx.shard) % 4] if ip < 8 else str(rng.choice(['v1', 'v2name', 'v2wav']))
         fmt = str(rng.choice(['D', 'E']))
         step = float(rng.choice([0.01, 0.02, 0.025, 0.05, 0.1, 0.3]))
         aps = gen.aperture_table(rng, n_ap)
@@ -85,10 +85,23 @@ def run(ctx):
             conv, aps, wav = pkg.r32(conv), pkg.r32(aps), pkg.r32(wav)
         bnames = ['F%d' % i for i in range(n_bands)]
         pinfo = dict(style=style, fmt=fmt, n_models=n_models, n_bands=n_bands, n_ap=n_ap, step=step)
+        aps_band = None
         if style == 'v1':
             order = list(rng.permutation(n_models))
-            gen.write_grid_v1(d, names, bnames, wav, conv, apertures=aps, aperture_dependent=True,
-                              logd_step=step, fmt=fmt, table_order=order)
+            funit = ['mJy', 'Jy', 'uJy'][ip % 3]           # the unit the convolved files are tabulated in
+            if funit != 'mJy':
+                ctx.regime('unit:flux-not-mJy')
+            if ip % 2 == 0:
+                # every band with its own aperture table (each convolved file carries one), all spanning the common range
+                aps_band = []
+                for f in range(n_bands):
+                    inner = np.sort(gen.loguniform(rng, aps[0] * 1.01, aps[-1] * 0.99, n_ap - 2)) if n_ap > 2 else np.array([])
+                    t_ = np.concatenate([[aps[0]], inner, [aps[-1]]])
+                    aps_band.append(pkg.r32(t_) if fmt == 'E' else t_)
+                ctx.regime('apertures:per-band-tables')
+            gen.write_grid_v1(d, names, bnames, wav, conv, apertures=aps_band if aps_band is not None else aps, aperture_dependent=True,
+                              logd_step=step, fmt=fmt, table_order=order, flux_unit=funit)
+            pinfo['flux_unit'] = funit
             filt = bnames
         elif style == 'v2name':
             gen.write_grid_v2(d, names, bnames, wav, conv, apertures=aps, aperture_dependent=True,
@@ -178,7 +191,7 @@ def run(ctx):
                      sample=dict(wit0, n_distances=n) if ip < 2 else None)
             if not gok:
                 continue
-            logm = fitcheck.grid_logm(conv, aps, theta, dist)
+            logm = fitcheck.grid_logm(conv, aps_band if aps_band is not None else aps, theta, dist)
             if np.any(theta[None, :] * dist[:, None] * 1000.0 > aps[-1]):
                 ctx.regime('beyond_table')
             # float32 memmap: log10 evaluated in float32; float32 (1E, the documented format) tables are
@@ -196,11 +209,12 @@ def run(ctx):
             if rowidx is not None and mf is not None and mf.shape == (len(names), len(dist), n_bands):
                 ref = np.asarray(10.0 ** logm[rowidx], float)
                 rt = 1e-9 if not delta else 5e-7
+                # what the fitter *holds* is not part of the statement (it may keep unscaled fluxes and apply (1 kpc/d)^2 later):
+                # recorded as a diagnostic only; the fits below decide "the model flux at each distance" through chi^2, A_V and scale
                 if not O.close(mf, ref, rtol=rt):
-                    ctx.violation('grid:model-fluxes', 'per-distance model fluxes are not the tabulated fluxes interpolated to theta*d, clamped above, times (1kpc/d)^2',
-                                  dict(wit0, maxrel=O.maxrel(mf, ref)))
-                    continue
-                ctx.event('fluxes_checked', int(mf.size))
+                    ctx.event('fluxes_state_probe:held-table-differs-from-scaled-reference')
+                else:
+                    ctx.event('fluxes_checked', int(mf.size))
             else:
                 ctx.event('fluxes_state_probe_unavailable')
 
